@@ -156,3 +156,46 @@ Proof.
     apply N.eqb_eq in H, H1, H2. subst. exact Hin.
   - eexists. vm_compute. repeat split; reflexivity.
 Qed.
+
+(* ---------------------------------------------------------------- GroupSizeCalculator *)
+Lemma gloop_tok gs : forall a a',
+  forallb (fun g => fixed_size g || negb (fst (block_tokens g) =? 0)) gs = true ->
+  (g_cnt a = 0 \/ g_tok a <> 0) -> gloop gs a = inr a' -> g_cnt a' = 0 \/ g_tok a' <> 0.
+Proof.
+  induction gs as [|g r IH]; intros a a' Hok Ha E; cbn [gloop forallb] in *.
+  - now inversion E; subst.
+  - apply andb_prop in Hok as [Hg Hr].
+    destruct (block_tokens g) as [t v] eqn:Eb. cbn [fst] in Hg.
+    destruct v; [discriminate|].
+    destruct g; try (now apply (IH a a' Hr Ha E)).
+    destruct (fixed_size (FGroup mn mx fs)) eqn:Ef.
+    + apply (IH _ a' Hr) in E; [assumption|]. cbn [g_cnt g_tok]. assumption.
+    + destruct (1 <? g_cnt a + 1); [discriminate|].
+      apply (IH _ a' Hr) in E; [assumption|]. cbn [g_cnt g_tok]. right.
+      cbn [orb] in Hg. destruct (t =? 0) eqn:Et; [discriminate|]. now apply N.eqb_neq.
+Qed.
+
+Lemma gcalc_no_divzero tc fs : gtok_ok fs = true -> gcalc tc fs <> GDivZero.
+Proof.
+  unfold gtok_ok, gcalc. intros Hok.
+  destruct (tc <? _); [discriminate|].
+  destruct (filter is_group fs) as [|g r] eqn:Eg; [destruct (_ =? _); discriminate|].
+  destruct (gloop (g :: r) _) as [s|a] eqn:El.
+  - (* early returns are GNestedVar / GMultipleVar only *)
+    clear - El. revert El. generalize {| g_req := len (filter (fun f => negb (is_group f)) fs);
+                                        g_cnt := 0; g_tok := 0; g_mx := 0 |}.
+    generalize (g :: r). intros l. induction l as [|x l IH]; intros a0 E; cbn [gloop] in E; [discriminate|].
+    destruct (block_tokens x) as [t v]. destruct v; [injection E as <-; discriminate|].
+    destruct x; try (now apply (IH _ E)).
+    destruct (fixed_size (FGroup mn mx fs0)); [now apply (IH _ E)|].
+    destruct (1 <? g_cnt a0 + 1); [injection E as <-; discriminate|now apply (IH _ E)].
+  - apply (gloop_tok _ _ _ Hok) in El; [|left; reflexivity].
+    destruct (tc <? g_req a); [discriminate|].
+    destruct (g_cnt a =? 0) eqn:Ec; [destruct (g_req a =? tc); discriminate|]. apply N.eqb_neq in Ec.
+    destruct (negb (g_mx a =? -1)%Z && _); [discriminate|].
+    destruct (g_tok a =? 0) eqn:Et; [apply N.eqb_eq in Et; destruct El; contradiction|].
+    destruct (negb ((tc - g_req a) mod g_tok a =? 0)); discriminate.
+Qed.
+
+Lemma shipped_gtok : forallb (fun e => gtok_ok (snd e)) PidDescs.all = true.
+Proof. vm_compute. reflexivity. Qed.
